@@ -12,6 +12,9 @@
 //	m <msg> ... rung <n>  the same under a controlled schedule (sched.go): the writer goroutine parks inside
 //	                      every Write, messages start and body reads return one gate at a time, chosen by
 //	                      a splitmix stream seeded with n
+//	m <msg> ... runstall <ms>.<k>  free-running, but the stream's io.Writer blocks for ms milliseconds of wall
+//	                      clock inside its k-th Write while the messages go on being logged and read (a slow
+//	                      disk / subscriber): every sender has to wait, no frame may be lost
 //
 // What the model receives for a run op is the op plus two things the run decided (core.Result.ModelOp):
 // ord=<i,i,…> the message each Write of the stream's writer belonged to, in order (the schedule of the
@@ -69,7 +72,7 @@ func (P) Rule() string {
 		"to one real marbl.Stream (writer: a recorder that also retains the slices it is handed; via marbl.Modifier in 1/5, into the real marbl.Handler " +
 		"with a real websocket subscriber in 2/5 of the cases; or, `rung`, 2..6 messages under a controlled schedule: the writer goroutine is held inside every Write, " +
 		"message starts and body reads are released one gate at a time by a seeded scheduler that waits for all goroutines to block) and parsed back with marbl.Reader and an independent parser, " +
-		"the model replaying the observed order of writes; or a batch of `read` ops: streams of valid " +
+		"the model replaying the observed order of writes; one case (thorough: 6) stalls the stream's writer for 400..1500 ms of wall clock inside one Write while bodies are being read; or a batch of `read` ops: streams of valid " +
 		"frames (1/30 with a header or data frame around/above 64 KiB) that are truncated, bit-flipped, re-typed, given boundary/huge length fields, spliced with random bytes, or purely random; " +
 		"distinct by hash of the op list; non-trivial when a log case has >= 2 messages and >= 2 data frames, or a read batch reaches " +
 		">= 2 different terminating outcomes or parses >= 1 frame before an error"
@@ -716,6 +719,17 @@ func doLog(toks []string, mode string, seed uint64, opText string) core.Result {
 		rec.gate = g.waitWrite
 		core.Count("log:controlled-schedule")
 	}
+	if mode == "runstall" { // seed = ms<<16 | k: the writer is blocked for ms milliseconds of wall clock inside its k-th Write
+		stallMs, stallAt := int(seed>>16), int(seed&0xffff)
+		nw := 0
+		rec.gate = func() { // called by the single writer goroutine only
+			if nw == stallAt {
+				core.Count("log:writer-stalled")
+				time.Sleep(time.Duration(stallMs) * time.Millisecond)
+			}
+			nw++
+		}
+	}
 	var tap *wsTap
 	if mode == "runws" {
 		nf := 0
@@ -1270,6 +1284,19 @@ func (e *ex) Do(op string) core.Result {
 			return core.Result{Impl: "bad-op"}
 		}
 		return doLog(q, "rung", seed, op)
+	case len(t) == 2 && t[0] == "runstall": // wall-clock stall of the stream's writer: <ms>.<k>
+		p := strings.Split(t[1], ".")
+		q := e.queue
+		e.queue = nil
+		if len(p) != 2 || len(q) == 0 {
+			return core.Result{Impl: "bad-op"}
+		}
+		ms, err1 := strconv.Atoi(p[0])
+		k, err2 := strconv.Atoi(p[1])
+		if err1 != nil || err2 != nil || ms < 0 || ms > 5000 || k < 0 || k > 60000 {
+			return core.Result{Impl: "bad-op"}
+		}
+		return doLog(q, "runstall", uint64(ms)<<16|uint64(k), op)
 	}
 	return core.Result{Impl: "bad-op"}
 }
